@@ -128,6 +128,9 @@ def cases(group):
                     yield dict(mode="explicit", X=X, init=init, legs=[n], ff=ff)
                     if not group["label"].startswith("L") and n in (N, None):
                         yield dict(mode="explicit", X=X, init=init, legs=[n], ff=ff, prefit=True)
+                    if group["label"].startswith("L") and n == N and init in (0, N - 1):
+                        # small-integer coordinates handed over as float32 (every distance is exact in single precision)
+                        yield dict(mode="explicit", X=X, init=init, legs=[n], ff=ff, f32=True)
                 if init == "random":
                     continue
                 top = min(N, 6)
@@ -233,6 +236,7 @@ def _run_voronoi(X, init, legs, ff, n_trial=4, prefit=False):
         _, exc0 = sel.fit_quiet(s, Xo, None)
         if exc0 is not None:
             return s, sel.StepRecorder(s, _snapshot), [], exc0
+        sel.query_all(s, Xo)
         Xo[...] = X  # the caller refills the same array object in place and passes it again
         X = Xo
     rec = sel.StepRecorder(s, _snapshot)
@@ -248,6 +252,7 @@ def _run_voronoi(X, init, legs, ff, n_trial=4, prefit=False):
     for i, n in enumerate(legs):
         s.n_to_select = n
         if i > 0:
+            sel.query_all(s, X)  # read-only accessors between the legs
             # a second live VoronoiFPS, fitted on other points of the same number between the legs
             sibling = sel.sibling_fit("VoronoiFPS", "sample", X, None, dict(initialize=init if not isinstance(init, str) else 0, full_fraction=ff, n_trial_calculation=n_trial))  # noqa: F841
         _, exc = sel.fit_quiet(s, X, None, warm_start=i > 0)
@@ -341,7 +346,7 @@ def check(case):
     pruned_steps = 0
 
     if case["mode"] == "explicit":
-        s, rec, active, exc = _run_voronoi(X, init, legs, case["ff"], prefit=bool(case.get("prefit")))
+        s, rec, active, exc = _run_voronoi(X.astype(np.float32) if case.get("f32") else X, init, legs, case["ff"], prefit=bool(case.get("prefit")))
         if exc is not None:  # every configuration of this alphabet is admissible
             return r.fail("crash:%s" % type(exc).__name__, "%r" % exc)
         idx, tie = _judge_run(r, X, D, tol, s, rec, active, init, n_final, "ff=%g legs=%s" % (case["ff"], legs))
